@@ -15,7 +15,6 @@ import (
 
 	gpb "github.com/openconfig/gnmi/proto/gnmi"
 	fgnmi "github.com/openconfig/gnmi/testing/fake/gnmi"
-	fpb "github.com/openconfig/gnmi/testing/fake/proto"
 )
 
 // agentPatience bounds how long one Agent observation may take. It never
@@ -31,7 +30,7 @@ const agentPatience = 2 * time.Minute
 // Runs outside any bubble (real sockets), so the global seed is never zero in
 // a scenario that asks for it: nothing depends on the clock.
 func (sc *Scenario) runAgent(limit int) (got []*gpb.SubscribeResponse, ended bool, skip string, err error) {
-	cfg := &fpb.Config{Target: "c20", Seed: sc.Seed, Values: sc.buildValues(), DisableSync: sc.DisableSync}
+	cfg := sc.buildConfig(true)
 	a, aerr := fgnmi.New(cfg, nil)
 	if aerr != nil {
 		return nil, false, "listen: " + aerr.Error(), nil
@@ -119,11 +118,11 @@ func (sc *Scenario) judgeAgent(st *stats) error {
 	}
 	if st.det {
 		if len(got) != len(st.wire) {
-			return fmt.Errorf("agent: reproducible: the Agent sent %d responses (ended=%v), a Client on an equal configuration with the same seeds %d", len(got), ended, len(st.wire))
+			return fmt.Errorf("agent: reproducible: the Agent sent %d responses (ended=%v), a Client on an equal configuration with the same seeds %d%s", len(got), ended, len(st.wire), sc.cfgNote())
 		}
 		for k := range got {
 			if !proto.Equal(got[k], st.wire[k]) {
-				return fmt.Errorf("agent: reproducible: response %d of the Agent is %v, of a Client on an equal configuration with the same seeds %v", k, got[k], st.wire[k])
+				return fmt.Errorf("agent: reproducible: response %d of the Agent is %v, of a Client on an equal configuration with the same seeds %v%s", k, got[k], st.wire[k], sc.cfgNote())
 			}
 		}
 		st.label("clause-reproducible-agent-equals-client")
